@@ -654,10 +654,10 @@ def treelevel(facts, name, container_field, res):
     fns = [m for m in facts.methods_of("TbfTree") if m["name"] == name]
     if len(fns) != 1:
         raise AnalysisBroken("TbfTree::%s not found" % name)
-    fn = fns[0]
+    fn = tbf.expand_member_helpers(facts, fns[0])       # a lookup that forwards to a shared helper is judged through it
     lk = _Look(facts, fn)
     fm = lk.fm
-    f = tbf.rel(facts.path_of(fn))
+    f = tbf.rel(facts.path_of(fns[0]))
     rets = [x for x in walk(fm.body, into_lambdas=False) if x.get("k") == "ReturnStmt"]
     succ = [r for r in rets if not is_empty_return(facts, r)]
     empty = [r for r in rets if r not in succ]
